@@ -657,7 +657,7 @@ func TestCheck(t *testing.T) {
 		r.Assume("a cached answer that the host's own cluster gave earlier may be applied while that cluster has no ready endpoint (the statement only forbids deciding from another cluster's answer)")
 		r.Assume("Hostname in ExtraRequestInfo is lower-case without port, as the production ExtraRequestInfoFactory produces it")
 
-		ns := r.N(1500, 40000)
+		ns := r.N(3000, 40000)
 		workers := runtime.GOMAXPROCS(0)
 		if workers > 16 {
 			workers = 16
